@@ -251,6 +251,17 @@ func funkContains(x *Exec, st *State, site ssa.Instruction, fn *ssa.Function, ar
 			}
 			return scalarVal(Or(ps...), bt)
 		}
+		if el.K == VFunc || true {
+			// symbolic length, bounded by the universal batch bound 10 (obligation): finite expansion
+			st1 := &State{pc: st.pc, heap: st.heap, alloc: st.alloc}
+			x.oblige(st1, "safety", fmt.Sprintf("contains-bound#%d", len(x.obls)), Le(in.Len, IntLit(10)), "slice searched by funk.Contains has at most 10 elements")
+			x.assume(st, Le(in.Len, IntLit(10)))
+			var ps []*Term
+			for i := int64(0); i < 10; i++ {
+				ps = append(ps, And(Lt(IntLit(i), in.Len), pred(IntLit(i))))
+			}
+			return scalarVal(Or(ps...), bt)
+		}
 		// symbolic length: r <=> exists i. pred(i), with a witness for the positive direction
 		r := FreshVar("contains", SBool)
 		w := FreshVar("contains.w", SInt)
